@@ -72,7 +72,8 @@ func Pipe(nameA, nameB string) (*End, *End) {
 	return &End{name: nameA, rd: ba, wr: ab}, &End{name: nameB, rd: ab, wr: ba}
 }
 
-var ErrClosed = errors.New("vnet: use of closed connection")
+// what the real transports answer after a local Close (code may test for it with errors.Is)
+var ErrClosed = net.ErrClosed
 var ErrPipe = errors.New("vnet: broken pipe")
 
 func (c *End) Read(p []byte) (int, error) {
